@@ -264,6 +264,46 @@ def nested_reassign(prog):
     return walk(prog.body, depth0)
 
 
+def has_nonlinear_cycle(prog, simple):
+    """own reading of restriction 3 on the SOURCE program: is there a dependency cycle through an edge that is non-linear
+    (a monomial with two non-simple variables, or one non-simple variable of power > 1)?  `simple` = finitely valued / drawn variables."""
+    from vlib.lang import If, Simult
+    edges = {}   # (src, dst) -> nonlinear?
+
+    def visit(stmts):
+        for s_ in stmts:
+            if isinstance(s_, If):
+                for b in s_.branches + ([s_.else_branch] if s_.else_branch else []):
+                    visit(b)
+            elif isinstance(s_, Simult):
+                visit(s_.assigns)
+            elif s_.kind == "choice":
+                for q, _ in s_.payload:
+                    for mono in q.t:
+                        inf = [(v, p) for v, p in mono if v not in simple]
+                        nl = len(inf) > 1 or (len(inf) == 1 and inf[0][1] > 1)
+                        for v, p in mono:
+                            edges[(v, s_.var)] = edges.get((v, s_.var), False) or nl
+            elif s_.kind == "dist":
+                for q in s_.payload[1]:
+                    for v in q.symbols_deep():
+                        edges[(v, s_.var)] = edges.get((v, s_.var), False)
+    visit(prog.body)
+    nodes = {a for a, b in edges} | {b for a, b in edges}
+    reach = {n: {b for (a, b) in edges if a == n} for n in nodes}
+    changed = True
+    while changed:
+        changed = False
+        for n in nodes:
+            new = set(reach[n])
+            for m in list(reach[n]):
+                new |= reach.get(m, set())
+            if new != reach[n]:
+                reach[n] = new
+                changed = True
+    return any(nl and (a == b or a in reach.get(b, set())) for (a, b), nl in edges.items())
+
+
 def sig(exc, prog=None):
     msg = re.sub(r"\d+", "#", exc.get("msg", ""))
     m = re.match(r"Can't normalize condition (.*), because (.*)", msg)
@@ -300,6 +340,23 @@ def job_accept(item):
     out["accepted"] = 1
     program = res["program"]
     eff = {str(v) for v in program.effective_variables}
+    # the classification itself: the stored sets must be what the classifier yields on the FINAL program (types inferred),
+    # and a program of the class (no non-linear dependency cycle by construction) has no defective variable at all
+    try:
+        from unsolvable_analysis import SolvabilityChecker
+        e2, d2 = SolvabilityChecker.get_variables(program)
+        out["checked"] += 1
+        if {str(v) for v in d2} != {str(v) for v in program.defective_variables}:
+            out["records"].append({"kind": "violation", "key": "classification|stale", "tag": pid,
+                                   "what": f"program.defective_variables = {sorted(map(str, program.defective_variables))} but the classifier on the normalised program yields {sorted(map(str, d2))} (witness {pid})",
+                                   "replay": {"text": text}})
+        elif program.defective_variables and not has_nonlinear_cycle(
+                prog, {str(v) for v in program.finite_variables} | {str(v) for v in program.dist_variables} | {str(v) for v in program.func_variables}):
+            out["records"].append({"kind": "violation", "key": "classification|defective-in-class", "tag": pid,
+                                   "what": f"variables {sorted(map(str, program.defective_variables))} of a program without non-linear dependency cycles are classified defective (witness {pid})",
+                                   "replay": {"text": text}})
+    except Exception as e:  # noqa
+        out["records"].append({"kind": "inconclusive", "tag": pid, "why": f"classification: {type(e).__name__}: {e}"[:120]})
     # loop constants of the source (assigned only in the initial block) are part of the documented class as goals
     body_vars = set(prog.assigned_vars(prog.body))
     consts = {v for v in prog.assigned_vars(prog.initial) if v not in body_vars}
